@@ -1,10 +1,13 @@
 (* Correspondence check for the AVL model (C01, C02): a case is an operation
    history over tree handles together with the outputs the real avl.Tree[int]
-   produced; the model is run on the same history. Definitions only. *)
-From Typ Require Export Lib.Base Avl.Model.
+   produced; the model is run on the same history. [c_calls] (C02, cases run
+   with a call-counting natural-order comparator): the number of comparator
+   calls the real code made in each op; [] = not recorded, a negative entry =
+   not recorded for that op. Definitions only. *)
+From Typ Require Export Lib.Base Avl.Model Avl.Cost.
 Local Open Scope Z_scope.
 
-Record case := Case { c_ops : list (op (A:=Z)); c_obs : list (out (A:=Z)) }.
+Record case := Case { c_ops : list (op (A:=Z)); c_obs : list (out (A:=Z)); c_calls : list Z }.
 
 Definition out_eqb (a b : out (A:=Z)) : bool :=
   match a, b with
@@ -39,3 +42,19 @@ Fixpoint contents_agree (ops : list (op (A:=Z))) (m o : list (out (A:=Z))) : boo
   | _, _, _ => false
   end.
 Definition check_contents (c : case) : bool := contents_agree (c_ops c) (model_outs c) (c_obs c).
+
+(* exact agreement on the number of comparator calls of every op (C02_cost speaks about
+   [contains_cost]/[add_cost]/[remove_cost]; [run_calls] is built from them) *)
+Fixpoint calls_agree (m : list (option nat)) (o : list Z) : bool :=
+  match m, o with
+  | [], [] => true
+  | mk :: m', z :: o' =>
+      (if z <? 0 then true else match mk with Some k => Z.of_nat k =? z | None => false end)
+      && calls_agree m' o'
+  | _, _ => false
+  end.
+Definition check_calls (c : case) : bool :=
+  match c_calls c with
+  | [] => true
+  | zs => calls_agree (run_calls Z.eqb zcompare [empty_Tree] (c_ops c)) zs
+  end.
